@@ -140,7 +140,7 @@ class Report:
         os.makedirs(os.path.join(OUT, "replays"), exist_ok=True)
         with open(os.path.join(OUT, rel), "w") as f:
             json.dump(replay_obj, f, indent=1, sort_keys=True, default=str)
-        line = "VIOLATION property=%s replay=%s" % (self.pid, rel)
+        line = "VIOLATION property=%s replay=%s" % (self.pid, os.path.relpath(os.path.join(OUT, rel), VERIF))
         if nofail:
             line += " no-failing-input-found"
         print(line, flush=True)
